@@ -33,6 +33,14 @@ theorem extractWord_inv (st : Stream) (h : st.Inv) : (extractWord st).Inv := by
     · intro _; rfl
     · intro he; simpa using he
 
+theorem extractInt_inv (u : Bool) (st : Stream) (h : st.Inv) : (extractInt u st).Inv := by
+  unfold extractInt
+  split
+  · exact h
+  · split
+    · intro _; rfl
+    · intro he; simpa using he
+
 /-- with the tests in the order of the current source -/
 theorem pureData_spec (st : Stream) (h : st.Inv) :
     pureData st = true ↔ (st.fail = false ∧ st.rest.all isSpace = true) := by
